@@ -19,11 +19,14 @@ import (
 // so that a counterexample can be turned into a concrete byte string.
 
 func (e *Engine) ghostArr(st *State, name string, s Sort) *Term {
+	ghostSorts[name] = s
 	if t, ok := st.Ghost[name]; ok {
 		return t
 	}
 	return e.tb.Const("G0!"+name, s)
 }
+
+var ghostSorts = map[string]Sort{"closed": SArrB, "sends": SArrI, "held": SArrB}
 
 func (e *Engine) setGhost(st *State, name string, t *Term) {
 	st.Ghost[name] = t
@@ -204,6 +207,61 @@ func init() {
 		st.Heap[cl] = tb.Store(e.H(st, cl, SArr2I), sl.slArr(), tb.App("marshalbytes", SArrI, recv.ifTag(), recv.ifVal()))
 		errv := e.freshVal(st, c.Signature().Results().At(1).Type(), "mb_err")
 		k(st, Val{Elems: []Val{sl, errv}})
+	}
+	libIface["wire_perunio.Decoder.Decode"] = func(e *Engine, st *State, c *ssa.CallCommon, recv Val, args []Val, pos token.Pos, k Kont) {
+		e.Assumed["Decode of values with unknown dynamic type (third-party wire addresses etc.): does not panic, touches only its receiver"] = true
+		k(st, e.freshVal(st, c.Signature().Results().At(0).Type(), "dec_err"))
+	}
+	libIface["wire_perunio.Encoder.Encode"] = func(e *Engine, st *State, c *ssa.CallCommon, recv Val, args []Val, pos token.Pos, k Kont) {
+		e.Assumed["Encode of values with unknown dynamic type: does not panic"] = true
+		k(st, e.freshVal(st, c.Signature().Results().At(0).Type(), "enc_err"))
+	}
+	// encoding/binary byte order helpers: bounds requirement and an uninterpreted value
+	for _, bo := range []string{"littleEndian", "bigEndian"} {
+		for _, w := range []int{16, 32, 64} {
+			w := w
+			bo := bo
+			libSpecs[fmt.Sprintf("(encoding/binary.%s).Uint%d", bo, w)] = func(e *Engine, st *State, fn *ssa.Function, args []Val, pos token.Pos, k Kont) {
+				tb := e.tb
+				b := e.materialiseIfSlice(st, args[len(args)-1], fn.Signature.Params().At(0).Type())
+				e.oblige(st, "bounds", "", pos, tb.Ge(b.slLen(), tb.Int(int64(w/8))), fmt.Sprintf("binary.%s.Uint%d: slice shorter than %d bytes", bo, w, w/8))
+				row := tb.Select(e.H(st, "E:uint8", SArr2I), b.slArr())
+				r := tb.App(fmt.Sprintf("bo_%s_u%d", bo, w), SInt, row, b.slOff())
+				e.assume(st, tb.And(tb.Le(tb.Int(0), r), tb.Lt(r, tb.BigInt(pow2big(w)))))
+				k(st, scalar(r))
+			}
+			libSpecs[fmt.Sprintf("(encoding/binary.%s).PutUint%d", bo, w)] = func(e *Engine, st *State, fn *ssa.Function, args []Val, pos token.Pos, k Kont) {
+				tb := e.tb
+				b := e.materialiseIfSlice(st, args[len(args)-2], fn.Signature.Params().At(0).Type())
+				e.oblige(st, "bounds", "", pos, tb.Ge(b.slLen(), tb.Int(int64(w/8))), fmt.Sprintf("binary.%s.PutUint%d: slice shorter than %d bytes", bo, w, w/8))
+				h := e.H(st, "E:uint8", SArr2I)
+				e.setH(st, "E:uint8", tb.Store(h, b.slArr(), tb.Fresh("put_row", SArrI)))
+				k(st, Val{})
+			}
+		}
+	}
+	// proto.Unmarshal: trusted; afterwards the message tree is arbitrary (any nested pointer may be nil, any list arbitrary)
+	libSpecs["google.golang.org/protobuf/proto.Unmarshal"] = func(e *Engine, st *State, fn *ssa.Function, args []Val, pos token.Pos, k Kont) {
+		msg := args[1]
+		ix, ok := msg.ann("").(*IfaceX)
+		if !ok {
+			panic(e.unsupported("proto.Unmarshal into a message of unknown dynamic type"))
+		}
+		pt, isPtr := ix.Dyn.Underlying().(*types.Pointer)
+		if !isPtr {
+			panic(e.unsupported("proto.Unmarshal into non-pointer"))
+		}
+		ptr := e.unbox(st, msg, ix.Dyn)
+		e.nilCheck(st, ptr, pos, "proto.Unmarshal into nil message")
+		e.store(st, ptr, pt.Elem(), e.freshVal(st, pt.Elem(), "pbmsg"))
+		k(st, e.freshVal(st, fn.Signature.Results().At(0).Type(), "pb_err"))
+	}
+	libSpecs["google.golang.org/protobuf/proto.Marshal"] = func(e *Engine, st *State, fn *ssa.Function, args []Val, pos token.Pos, k Kont) {
+		tb := e.tb
+		ln := tb.Fresh("pb_len", SInt)
+		e.assume(st, tb.And(tb.Le(tb.Int(0), ln), tb.Le(ln, tb.BigInt(maxExisting))))
+		sl := e.allocSlice(st, types.Typ[types.Uint8], ln, ln)
+		k(st, Val{Elems: []Val{sl, e.freshVal(st, fn.Signature.Results().At(1).Type(), "pb_err")}})
 	}
 	libSpecs["time.Unix"] = pureUF("time_Unix")
 	libSpecs["(time.Time).UnixNano"] = pureUF("time_UnixNano")
